@@ -267,6 +267,7 @@ func c06Verify(res *engine.Result, pre string, pmt psi.PMT, w *c06Want, deep boo
 		// there is any) changes nothing that the table reports afterwards
 		junk := psi.NewPmtDescriptor(0xEE, []byte{0xBA, 0xD0, 0xBA, 0xD0})
 		for _, es := range pmt.ElementaryStreams() {
+			_ = append(es.Descriptors(), junk)
 			_ = append(es.Descriptors(), junk, junk)
 		}
 		_ = append(pmt.ElementaryStreams(), psi.NewPmtElementaryStream(0xEE, 0x1EEE, nil))
